@@ -427,3 +427,10 @@ def main_wrapper(pid, fn, argv=None):
         print(f"[{pid}] INTERNAL ERROR: {e}", file=sys.stderr)
         sys.exit(2)
     c.finish()
+
+
+# the type identifier each probed class must get by the documented rules (docs/experiments/config.md): a string __xpmid__
+# names the class only, a class-method __xpmid__ names the class and its descendants, otherwise module.qualname in lower case
+EXPECTED_TID = {"NamedBase": "vpk.named.namedbase", "NamedChild": "vpk.named.namedchild", "Fixed": "vpk.fixed",
+                "FixedChild": "vpk.typeprobe.fixedchild", "Enc.Opt": "vpk.typeprobe.enc.opt", "Dec.Opt": "vpk.typeprobe.dec.opt",
+                "Leaf": "vpk.schema.leaf", "EH": "vpk.schema.eh", "V1": "vpk.schema.v", "V2": "vpk.schema.v"}
